@@ -165,3 +165,59 @@ func BuilderLen(b *strings.Builder) int       { return len(builders[b]) }
 func BuilderCap(b *strings.Builder) int       { return cap(builders[b]) }
 func BuilderGrow(b *strings.Builder, n int)   {}
 func BuilderReset(b *strings.Builder)         { delete(builders, b) }
+
+// naive versions of the assembly primitives of internal/bytealg
+func BACountString(s string, c byte) int {
+	n := 0
+	for i := 0; i < len(s); i++ {
+		if s[i] == c {
+			n++
+		}
+	}
+	return n
+}
+func BACount(b []byte, c byte) int {
+	n := 0
+	for i := 0; i < len(b); i++ {
+		if b[i] == c {
+			n++
+		}
+	}
+	return n
+}
+func BAIndexByte(b []byte, c byte) int {
+	for i := 0; i < len(b); i++ {
+		if b[i] == c {
+			return i
+		}
+	}
+	return -1
+}
+func BAIndexByteString(s string, c byte) int {
+	for i := 0; i < len(s); i++ {
+		if s[i] == c {
+			return i
+		}
+	}
+	return -1
+}
+func BALastIndexByte(b []byte, c byte) int {
+	for i := len(b) - 1; i >= 0; i-- {
+		if b[i] == c {
+			return i
+		}
+	}
+	return -1
+}
+func BALastIndexByteString(s string, c byte) int {
+	for i := len(s) - 1; i >= 0; i-- {
+		if s[i] == c {
+			return i
+		}
+	}
+	return -1
+}
+func BAIndexString(a, b string) int { return StringsIndex(a, b) }
+func BAIndex(a, b []byte) int       { return StringsIndex(string(a), string(b)) }
+func BAEqual(a, b []byte) bool      { return BytesEqual(a, b) }
+func BACompare(a, b []byte) int     { return BytesCompare(a, b) }
